@@ -186,7 +186,11 @@ CLAIMED['C05'] = dict(
         "chains of 1-3 pickle resumes into fresh samplers (thorough: every cut point, new interpreter) against one uninterrupted run for "
         "all 28 family variants, joint mixes with slow parameters, transdimensional, MH/PT, blobs, annealed ladders.",
    note=MACH_NOTE + " The proposal family table is data: 'the attributes listed as dynamic are the only ones that change after construction' is "
-        "checked against the live objects on every run, not proved. The generator state is one opaque attribute.",
+        "checked against the live objects on every run, not proved. The generator state is one opaque attribute. Source tie "
+        "(Props/C05_src.v): for each of the ten classes of /repo that define state/set_state, which attribute is stored under which key and "
+        "which attribute each key is assigned back to is regenerated from the source on every run (tools/py2coq_state.py; a computed "
+        "property or an expression around state[key] is rendered as an attribute no table entry has) and proved to be the saved relation "
+        "of the table entry, by evaluation over the finite table.",
    technique="Coq proof (bisimulation invariant by induction over steps, sweeps and resume segments; finite table check lifted by a frame theorem) + vm_compute correspondence",
    ref="DESIGN.md section 3, C05")
 
